@@ -94,6 +94,13 @@ CHECKS = {
                      "visit counts, key-sorted save document, callbacks). Compiled output is hashed in five processes.",
                 note="the story seed is fixed by the harness hook; hash seeds differ per process and per HashMap instance",
                 technique="TLA+ trace validation (InkHostTrace/InkHostAbs) of repeated runs across processes and build profiles"),
+    "C19": dict(level=MC, ref="5/C19",
+                text="TLC evaluates the path algebra InkPath (PathOf, PathText, Resolve, ToRelative, ResolveFrom) on the content "
+                     "audit of every object of every corpus story (both compilers) and of generated programs: reported path "
+                     "text, exact resolution back to the object, text/equality/hash round trip, relative paths between nearby "
+                     "and random pairs, and every position written into save documents along an explored path.",
+                note="tree structure as reported by the audit hook; path text split into components by the converter",
+                technique="TLA+ specification of the path algebra (InkPath) evaluated by TLC on the implementation's content audit"),
 }
 
 NOT_YET = {}
